@@ -97,8 +97,13 @@ type Service struct {
 func (s *Service) String() string { return fmt.Sprintf("Service<%s>", s.Name) }
 
 // Running returns true as soon as start returns, and returns false
-// after close is called.
-func (s *Service) Running() bool { return s.isRunning.Load() }
+// after close is called, and always once the service has finished.
+func (s *Service) Running() bool {
+	if s.isFinished.Load() {
+		return false
+	}
+	return s.isRunning.Load()
+}
 
 // Start launches the configured service and tracks  its lifecycle. If
 // the context is canceled, the service returns, and any errors
